@@ -8,6 +8,7 @@ import (
 	"verif.local/harness/checks"
 	"verif.local/harness/fw"
 	_ "verif.local/harness/plugchecks"
+	_ "verif.local/harness/promchecks"
 )
 
 func main() {
